@@ -957,6 +957,14 @@ class C01(Check):
             def twice():
                 self.unpack_into(o, b1 + TRAILER, len(b1)); self.unpack_into(o, b2 + TRAILER, len(b2)); return o.pack()
             out["steps"].append(["pack after unpacking twice into one object", packed(twice), fresh])
+        elif mode == "coexist":
+            # two decoded objects alive at the same time must not share state (a list returned by reference, a reused buffer)
+            b1 = B.build(s1).pack(); b2 = bytes.fromhex(fresh)
+            def first_after_second():
+                o1 = self.do_unpack(B.build(s1), b1 + TRAILER, len(b1))[1]
+                o2 = self.do_unpack(B.build(s2), b2 + TRAILER, len(b2))[1]
+                return o1.pack() + o2.pack()
+            out["steps"].append(["pack of two decoded objects, the first decoded before the second", packed(first_after_second), (b1 + b2).hex()])
         elif mode == "isolation":
             dflt = lambda: B.cls(s1["cls"])(**({"xid": 1} if "xid" in s1.get("kw", {}) else {})).pack()
             d0 = packed(dflt)
@@ -1409,6 +1417,7 @@ class C01(Check):
             cases.append({"kind": "seq", "mode": "repack", "inplace": True, "spec": spec, "spec2": s2})
             cases.append({"kind": "seq", "mode": "reunpack", "spec": spec, "spec2": s2})
             cases.append({"kind": "seq", "mode": "isolation", "spec": spec, "spec2": s2})
+            cases.append({"kind": "seq", "mode": "coexist", "spec": spec, "spec2": s2})
             cases.append({"kind": "conv", "spec": spec, "offset": rng.choice([1, 3, 8, 13])})
         # the odd element first / in the middle / last in an action list
         out1 = {"cls": "ofp_action_output", "kw": dict(port=1)}
@@ -1477,7 +1486,7 @@ class C01(Check):
             elif r < 0.90:
                 sp = ofgen.message(rng, small=True) if rng.random() < 0.7 else rng.choice(list(STRUCT_GEN.values()))(rng)
                 if sp["cls"] == "ofp_match": continue
-                m = rng.choice(["repack", "repack", "reunpack", "isolation", "conv"])
+                m = rng.choice(["repack", "repack", "reunpack", "isolation", "coexist", "conv"])
                 if m == "conv": yield {"kind": "conv", "spec": sp, "offset": rng.randint(1, 20)}
                 else: yield {"kind": "seq", "mode": m, "inplace": rng.random() < 0.5, "spec": sp, "spec2": perturb(rng, sp)}
             elif r < 0.93:
